@@ -137,12 +137,20 @@ func classify(f *execx.Fixture, cs *Case, vars map[string]interface{}, obs execx
 }
 
 func Run(c *core.Ctx, strict bool) {
-	f, err := execx.NewFixture(gen.Kitchen(), bridge.Options{})
+	runWith(c, strict, bridge.Options{}, c.Pick(3, 4))
+	if strict && !c.Expired() {
+		// the same space, one deviation shallower, on a schema whose abstract types are
+		// resolved through isTypeOf (no ResolveType): isTypeOf gets value, info and context
+		runWith(c, strict, bridge.Options{UseIsTypeOf: true, NoResolveType: true}, c.Pick(2, 3))
+	}
+}
+
+func runWith(c *core.Ctx, strict bool, bo bridge.Options, docDev int) {
+	f, err := execx.NewFixture(gen.Kitchen(), bo)
 	if err != nil {
 		c.R.HarnessError("fixture: %v", err)
 		return
 	}
-	docDev := c.Pick(3, 4)
 	outDev := 1
 	depth := c.Pick(2, 3)
 	c.R.Rule = "case = (kitchen schema, generated valid document, variable assignment, resolver outcome placement); executed through Do, Execute and PlanQuery+ExecutePlan (plan reused across assignments); non-trivial = document has a fragment, a duplicated response key or a variable-driven directive; distinct by hash of (text, variables, outcome trace)"
@@ -188,7 +196,7 @@ func Run(c *core.Ctx, strict bool) {
 		}
 		if bad != "" {
 			c.Mismatch(fid, sigOf(bad), fmt.Sprintf("query %q variables %s: %s", cs.Text, model.Canon(toPlain(cs.Inputs)), bad),
-				map[string]interface{}{"choices": x.Trace(), "text": cs.Text, "depth": depth})
+				map[string]interface{}{"choices": x.Trace(), "text": cs.Text, "depth": depth, "istypeof": bo.UseIsTypeOf})
 		}
 		return dig
 	})
@@ -243,7 +251,11 @@ func Replay(c *core.Ctx, p map[string]interface{}, strict bool) (bool, string) {
 	if d, ok := p["depth"].(float64); ok {
 		depth = int(d)
 	}
-	f, err := execx.NewFixture(gen.Kitchen(), bridge.Options{})
+	bo := bridge.Options{}
+	if ito, _ := p["istypeof"].(bool); ito {
+		bo = bridge.Options{UseIsTypeOf: true, NoResolveType: true}
+	}
+	f, err := execx.NewFixture(gen.Kitchen(), bo)
 	if err != nil {
 		return false, err.Error()
 	}
